@@ -70,7 +70,7 @@ def run(tier, seed):
                 b = rng.randrange(a + 1, len(c) + 1)
                 lookups.append(('src', c[a:b], None))
             lookups += [('src', 'BD', None), ('src', 'ZZZZQQ', None), ('src', 'B' * 33, None)]
-            ex = os.path.join(path, '..', os.path.basename(path) + '_exclude.txt')
+            ex = path + '_exclude.txt'
             extext = '\n'.join(rng.sample(codes, min(len(codes), 2)) + ['BD00FFFF']) + '\n'
             open(ex, 'w').write(extext)
             paths.append(ex)
